@@ -259,6 +259,33 @@ fn block_flows(sim: &Sim, a: usize, b: usize) -> (Vec<String>, Vec<String>, bool
     (dispatched, received, closed)
 }
 
+/// Is the received sequence an interleaving of subsequences of the per-connection handed lists
+/// (each handed wantlist used at most once, order kept within a connection)?
+fn interleaving_exists<T: PartialEq>(hc: &[T], lists: &[Vec<usize>], rcs: &[T]) -> bool {
+    fn go<T: PartialEq>(hc: &[T], lists: &[Vec<usize>], rcs: &[T], i: usize, pos: &mut Vec<usize>, seen: &mut std::collections::HashSet<(usize, Vec<usize>)>) -> bool {
+        if i == rcs.len() {
+            return true;
+        }
+        if !seen.insert((i, pos.clone())) {
+            return false;
+        }
+        for c in 0..lists.len() {
+            // earliest match on this connection at or after its position
+            if let Some(off) = lists[c][pos[c]..].iter().position(|&h| hc[h] == rcs[i]) {
+                let old = pos[c];
+                pos[c] = old + off + 1;
+                if go(hc, lists, rcs, i + 1, pos, seen) {
+                    return true;
+                }
+                pos[c] = old;
+            }
+        }
+        false
+    }
+    let mut pos = vec![0usize; lists.len()];
+    go(hc, lists, rcs, 0, &mut pos, &mut Default::default())
+}
+
 /// canonical form of a received wantlist `F/k,k!,..` comparable with the sender's `F|wh=|wb=|cn=`:
 /// (full flag, sorted wanted keys, sorted cancelled keys)
 fn canon_received(w: &str) -> (bool, Vec<String>, Vec<String>) {
@@ -481,23 +508,36 @@ pub fn run_one(seed: u64, cfg: &SimCfg) -> RunResult {
                 }
                 continue;
             }
-            // every received wantlist is one that was handed, in order, none twice
+            // every received wantlist is one that was handed, none twice; wantlists handed to ONE
+            // connection arrive in the order handed (different connections of a pair are independent
+            // byte streams: their frames may overtake each other, which the next refresh heals)
             let hc: Vec<_> = handed.iter().map(|(w, _)| canon_handed(w)).collect();
-            let mut pos = 0;
-            for r in &received {
-                let rc = canon_received(r);
-                match hc[pos..].iter().position(|h| *h == rc) {
-                    Some(off) => pos += off + 1,
-                    None => {
-                        // out-of-order arrival over different connections is possible only with several connections
-                        if hc.iter().any(|h| *h == rc) {
-                            violations.push(("C14".into(), format!("node {b} received wantlist {r} from node {a} out of order or twice")));
-                        } else {
-                            violations.push(("C14".into(), format!("node {b} received wantlist {r} which node {a} never handed to a connection (truncated or merged)")));
+            let rcs: Vec<_> = received.iter().map(|r| canon_received(r)).collect();
+            let mut by_conn: BTreeMap<u64, Vec<usize>> = BTreeMap::new();
+            for (idx, (_, c)) in handed.iter().enumerate() {
+                by_conn.entry(*c).or_default().push(idx);
+            }
+            let lists: Vec<Vec<usize>> = by_conn.into_values().collect();
+            if !interleaving_exists(&hc, &lists, &rcs) {
+                // which kind: a frame nobody handed, a frame more often than handed, or order within one connection
+                let mut left = hc.clone();
+                let mut kind = None;
+                for (r, rc) in received.iter().zip(rcs.iter()) {
+                    match left.iter().position(|h| h == rc) {
+                        Some(i) => {
+                            left.remove(i);
                         }
-                        break;
+                        None => {
+                            kind = Some(if hc.iter().any(|h| h == rc) {
+                                format!("node {b} received wantlist {r} from node {a} more often than it was handed to a connection")
+                            } else {
+                                format!("node {b} received wantlist {r} which node {a} never handed to a connection (truncated or merged)")
+                            });
+                            break;
+                        }
                     }
                 }
+                violations.push(("C14".into(), kind.unwrap_or_else(|| format!("wantlists node {a} handed to one connection reached node {b} in another order ({} handed over {} connections, {} received)", hc.len(), lists.len(), rcs.len()))));
             }
             // agreement of records when nothing is in flight (after the refresh)
             if connected(&sim, a, b) && client_knows(&sim, a, b) {
